@@ -87,10 +87,14 @@ CHECKS = {
                        "leadingFraction/unitMap in the integer encoding (SMT Int with explicit mod 2^64; z3 5.1.0 with cvc5 as fallback for totality, cvc5 with z3 as fallback for the round trips). The duration is one "
                        "unconstrained 64-bit value; every index into the fixed 32-byte buffer is an implicit check; paths fork on the digit "
                        "count of each component. On each formatter path the produced bytes are '0'+(v mod 10) terms and the real parser is "
-                       "run on that symbolic string: it must return exactly d. The parser's single floating-point expression is handled by "
-                       "the checked exactness rule (integer-valued constant factor, product provably below 2^53).",
-        "bounds": {"quick": "formatter totality: all int64, both styles; round trip: fractional style on ALL int64; compact style on the 1000 values next to MinInt64, MaxInt64 and 0; parser agreement with time.ParseDuration on all strings of <= 2 bytes (all byte values)",
-                   "thorough": "plus round trip of the compact style on all int64"},
+                       "run on that symbolic string: it must return exactly d. The parser's single floating-point expression is encoded as "
+                       "integer arithmetic where that is provably exact (integer-valued constant factor, product below 2^53) and otherwise as "
+                       "IEEE-754 terms (fp.mul/fp.div/to_fp/fp.to_ubv, round-to-nearest-even, truncation) decided by the solvers' floating-point "
+                       "theory in the bit-vector encoding; conversions back to integers are only encoded where provably in range (host-side "
+                       "interval arithmetic on monotone operations, else a solver proof). D: the fraction kernel, differentially against "
+                       "time.ParseDuration executed on the same symbolic text.",
+        "bounds": {"quick": "formatter totality: all int64, both styles; round trip: fractional style on ALL int64; compact style on the 1000 values next to MinInt64, MaxInt64 and 0; parser agreement with time.ParseDuration on all strings of <= 2 bytes (all byte values); fraction kernel D: texts <0|empty|1>.<1..12 arbitrary digits><h|m|s|ms|us|ns>, both parsers executed, float64 arithmetic as integer arithmetic where provably exact and in the solvers' IEEE-754 theory otherwise",
+                   "thorough": "plus round trip of the compact style on all int64; D also with the integer part 2562047 (hours next to the int64 overflow boundary)"},
         "outside": "parser agreement beyond 2-byte strings (3 bytes did not finish in 15 minutes: the error paths quote the input rune by rune)",
         "assumptions": ["integer encoding: bit-wise operators only with constant masks/shift counts"],
         "runs": [
@@ -104,6 +108,8 @@ CHECKS = {
              "args": ["-int", "-solver", "cvc5", "-fallback", "z3-new"], "covers": ["C20F:formatted", "C20F:parsed"]},
             {"harness": "VH_C20P", "pkg": "slog/internal/times", "quick": {"len": 2}, "thorough": {"len": 2},
              "covers": ["C20P:parsed", "C20P:std-accepts", "C20P:only-ours-accepts"]},
+            {"harness": "VH_C20D", "pkg": "slog/internal/times", "quick": {"digits": 12, "big": 0}, "thorough": {"digits": 12, "big": 1},
+             "args": ["-fallback", "cvc5"], "covers": ["C20D:parsed", "C20D:accepted"]},
             {"harness": "VH_C20F", "pkg": "slog/internal/times", "params": {"frac": 0, "roundtrip": 1}, "thorough_only": True, "timeout_ms": 20000,
              "args": ["-int", "-solver", "cvc5", "-fallback", "z3-new"], "covers": ["C20F:formatted", "C20F:parsed"]},
         ],
@@ -257,13 +263,21 @@ CHECKS = {
                        "first/rest lines, eol, stale attribute list, colours, timestamp, cached source), constrained only by the "
                        "representation invariant (off=0, lastRead=0, prefix empty, not in grouped mode, noQuoted, dedupeAttrs). The two "
                        "payloads must be byte-identical and the invariant must hold on the object put back, so one step covers histories of "
-                       "any length on any logger.",
+                       "any length on any logger. H: real histories, for state the havoc form cannot know about (fields added later, values "
+                       "cached next to the formatting context): a probe record B (12 shapes over every rendering path: groups, nested groups, "
+                       "errors first/last, errors with stack information, a time keyed 'time', blank and long messages, slices, durations; "
+                       "severities with and without colours; explicit call site 1, 2 or none) is written on a pristine process, then again "
+                       "after a history record A (same 12 shapes, on the same or another logger in any of 4 configurations, from the same or "
+                       "another call site) written under global flags that may differ from B's in the privacy or the caller bit; B's two "
+                       "payloads must be identical. Both in production and in test-process mode (error dumps).",
         "bounds": {"quick": "stale buffer 2 bytes, stale strings 1-2 bytes, 2 stale colour values each; 3 formats x 2 UTC modes x 4 severities x 3 messages x 5 attribute lists (incl. a group last, an error, a time.Time keyed 'time' last)",
                    "thorough": "same space (covered at quick)"},
-        "outside": "user marshallers that read from the PrintCtx (move off); the pooled attribute slice of logContext (its cells are never read beyond len)",
+        "outside": "user marshallers that read from the PrintCtx (move off); the pooled attribute slice of logContext (its cells are never read beyond len; C08 checks what is put into that pool); histories of more than one real record (covered by the havoc form for the fields it knows); state cached in package variables keyed by call site would be warmed by the reference run of H",
         "assumptions": ["sync.Pool hands back the object put last (engine model; natively true on one goroutine without GC)"],
         "runs": [
-            {"harness": "VH_C09", "quick": {"attrkinds": 5}, "thorough": {"attrkinds": 5}, "covers": ["C09:compared"]},
+            {"harness": "VH_C09", "quick": {"attrkinds": 7}, "thorough": {"attrkinds": 7}, "covers": ["C09:compared"]},
+            {"harness": "VH_C09H", "quick": {"testmode": 0, "fa": 4, "fb": 3}, "thorough": {"testmode": 0, "fa": 5, "fb": 5}, "covers": ["C09H:compared"]},
+            {"harness": "VH_C09H", "quick": {"testmode": 1, "fa": 4, "fb": 3}, "thorough": {"testmode": 1, "fa": 5, "fb": 5}, "covers": ["C09H:compared"]},
         ],
     },
     "C10": {
@@ -345,12 +359,12 @@ CHECKS = {
                        "nil, []string/[]int/[]bool, struct via the fallback, groups nested to the bound incl. empty), caller field on/off: "
                        "members time/logger/level/msg/caller, one member per key, values preserved.",
         "bounds": {"quick": "A: strings of <= 2 bytes; B: 1 attribute with group depth 1, and 2 attributes without groups",
-                   "thorough": "A: strings of <= 3 bytes; B: 1 attribute with group depth 2, 2 attributes without nesting"},
+                   "thorough": "A: strings of <= 3 bytes; B as quick (group depth 2 did not finish in 30 minutes)"},
         "outside": "maps via the fallback formatter (fmt needs reflect.Value.MapRange: not encoded); user marshallers / value stringers (excluded by the property); longer strings",
         "assumptions": ["timestamp text comes from the real time formatter on a fixed instant"],
         "runs": [
             {"harness": "VH_C04A", "quick": {"len": 2}, "thorough": {"len": 3}, "covers": ["C04A:rendered"]},
-            {"harness": "VH_C04B", "quick": {"attrs": 1, "depth": 1}, "thorough": {"attrs": 1, "depth": 2}, "covers": ["C04B:rendered"]},
+            {"harness": "VH_C04B", "quick": {"attrs": 1, "depth": 1}, "thorough": {"attrs": 1, "depth": 1}, "covers": ["C04B:rendered"]},
             {"harness": "VH_C04B", "quick": {"attrs": 2, "depth": 0}, "thorough": {"attrs": 2, "depth": 0}, "covers": ["C04B:rendered"]},
         ],
     },
@@ -362,11 +376,11 @@ CHECKS = {
                        "including []byte, nil, error, Stringer, Duration and groups nested to the bound at every position. Asserted: one "
                        "line; time, logger, level, msg first; msg parses back; exactly one pair per attribute under its own (dotted) key "
                        "with its exact value; string-like values quoted; no forged pair.",
-        "bounds": {"quick": "rune kernel: message or string value 'a'+r+'b' for EVERY Unicode scalar value r (strconv.IsPrint as an exact interval function); message <= 2 bytes (no attributes); 1 attribute of any kind incl. a group with <= 2 members of any kind at every position; keys of 1 byte", "thorough": "1 attribute with group depth 2 and 2-byte keys; plus 2 top-level attributes of any kind (an attribute after a group)"},
+        "bounds": {"quick": "rune kernel: message or string value 'a'+r+'b' for EVERY Unicode scalar value r (strconv.IsPrint as an exact interval function); message <= 2 bytes at Info and <= 1 byte (empty, blank, special, ordinary) at Error, Debug, OK, Success, Fail and a registered custom severity (no attributes); 1 attribute of any kind (incl. times needing nine fractional digits and a zone offset, durations of 1ns / 25h1m1.000000001s / negative, parsed back to the exact value) incl. a group with <= 2 members of any kind at every position; keys of 1 byte", "thorough": "as quick, plus 2 top-level attributes of any kind (an attribute after a group); group depth 2 with 2-byte keys did not finish in 30 minutes"},
         "outside": "the multi-line error dump under go test / debugger (production mode is set by the harness); user marshallers",
         "assumptions": ["runs of spaces between pairs are not counted as pairs"],
         "runs": [
-            {"harness": "VH_C05", "quick": {"attrs": 1, "depth": 1, "msg": 2, "key": 1}, "thorough": {"attrs": 1, "depth": 2, "msg": 2, "key": 2}, "covers": ["C05:rendered"]},
+            {"harness": "VH_C05", "quick": {"attrs": 1, "depth": 1, "msg": 2, "key": 1}, "thorough": {"attrs": 1, "depth": 1, "msg": 2, "key": 1}, "covers": ["C05:rendered"]},
             {"harness": "VH_C05", "quick": {"attrs": 2, "depth": 0, "msg": 0, "key": 1}, "thorough": {"attrs": 2, "depth": 0, "msg": 0, "key": 1}, "thorough_only": True, "covers": ["C05:rendered"]},
             {"harness": "VH_C05R", "covers": ["C05R:rendered"]},
         ],
@@ -381,14 +395,14 @@ CHECKS = {
                        "timestamp, name, [tag of the configured width], first line padded to the minimal width, attributes in key order, "
                        "rest lines indented by four spaces - for severities built-in, registered with and without tags, and unregistered.",
         "bounds": {"quick": "messages <= 3 bytes over printable ASCII without < > & plus LF (layout) / <= 2 bytes of anything but ESC (hygiene); tag widths 1..5 and minimal widths 16/17/36 with messages <= 2 bytes; 4 attribute lists (ints, symbolic string, error+group, []byte)",
-                   "thorough": "messages <= 4 bytes (layout), <= 3 bytes (hygiene)"},
+                   "thorough": "messages <= 4 bytes (layout); hygiene as quick (3 bytes did not finish in 30 minutes)"},
         "outside": "messages containing < > & (excluded by the property); the multi-line error dump under go test; caller field (C14)",
         "assumptions": ["timestamp text from the real formatter on a fixed instant"],
         "runs": [
             {"harness": "VH_C06", "quick": {"msg": 3, "attrkinds": 4}, "thorough": {"msg": 4, "attrkinds": 4}, "covers": ["C06:rendered"]},
             {"harness": "VH_C06", "quick": {"msg": 2, "attrkinds": 2, "widths": 1}, "thorough": {"msg": 3, "attrkinds": 2, "widths": 1}, "covers": ["C06:rendered"]},
             {"harness": "VH_C06", "quick": {"msg": 2, "attrkinds": 2, "tail": 1}, "thorough": {"msg": 2, "attrkinds": 4, "tail": 1, "widths": 1}, "covers": ["C06:rendered"]},
-            {"harness": "VH_C06", "quick": {"msg": 2, "attrkinds": 5, "hygiene": 1}, "thorough": {"msg": 3, "attrkinds": 5, "hygiene": 1}, "covers": ["C06:rendered"]},
+            {"harness": "VH_C06", "quick": {"msg": 2, "attrkinds": 5, "hygiene": 1}, "thorough": {"msg": 2, "attrkinds": 5, "hygiene": 1}, "covers": ["C06:rendered"]},
         ],
     },
     "C08": {
